@@ -230,6 +230,9 @@ func genValue(tp *kernel.Tape, t wType, proto int) (interface{}, []byte) {
 			if proto < 3 && n > 40000 {
 				n = 40000 // collection elements are limited to 64 KiB before protocol 3
 			}
+			if proto < 3 && genValueDepth > 1 && n > 4096 {
+				n = 4096 // (the enclosing collection is itself an element)
+			}
 			r := rand.New(rand.NewSource(int64(tp.Next(1 << 30))))
 			v = make([]byte, n)
 			r.Read(v)
